@@ -7,5 +7,5 @@
 import sys, json
 sys.path.insert(0, '/verif')
 from engine.pysym import env
-SPEC = json.loads('{"prop": "C16", "key": "py:BufferError@CodedInputStream._fill_buffer", "obligation": "trunc.error-is-EOFError", "job": {"harness": "harness.py.kernels:h_trunc", "params": {"ts": [["prim", "fixed_int32"]], "N": 16, "mode": "full", "maxlen": 3}, "limits": {"budget_s": 300, "max_paths": 40000}, "hooks": null}, "inputs": {"v0.x": -2147483648, "cut": 1, "r.p": 8, "r.pre0": 0, "r.pre1": 0, "r.pre2": 0, "r.pre3": 0, "r.pre4": 0, "r.pre5": 0, "r.pre6": 0, "r.pre7": 0, "r.pre8": 0, "r.pre9": 0, "r.pre10": 0, "r.pre11": 0, "r.pre12": 0, "r.pre13": 0, "r.pre14": 0, "r.pre15": 0}}')
+SPEC = json.loads('{"prop": "C16", "key": "py:BufferError@CodedInputStream._fill_buffer", "obligation": "trunc.error-is-EOFError", "job": {"harness": "harness.py.kernels:h_trunc", "params": {"ts": [["prim", "fixed_int32"]], "N": 16, "mode": "full", "maxlen": 3}, "limits": {"budget_s": 300, "max_paths": 40000, "xcheck_every": 40}, "hooks": null}, "inputs": {"v0.x": -2147483648, "cut": 1, "r.p": 8, "r.pre0": 0, "r.pre1": 0, "r.pre2": 0, "r.pre3": 0, "r.pre4": 0, "r.pre5": 0, "r.pre6": 0, "r.pre7": 0, "r.pre8": 0, "r.pre9": 0, "r.pre10": 0, "r.pre11": 0, "r.pre12": 0, "r.pre13": 0, "r.pre14": 0, "r.pre15": 0}}')
 sys.exit(env.replay_main(SPEC))
